@@ -45,7 +45,7 @@ fn observe(text: &str, conv: &cooklang::Converter) -> Value {
         .ingredients
         .iter()
         .map(|i| {
-            json!({"name": project::s(&i.name), "display": project::s(&i.display_name()), "listed": i.modifiers().should_be_listed(),
+            json!({"name": project::s(&i.name), "display": project::s(&i.display_name()), "listed": !i.modifiers().contains(cooklang::Modifiers::HIDDEN) && !i.modifiers().contains(cooklang::Modifiers::REF), // stated here, not asked of the library
                    "def": i.relation.is_definition(), "from": i.relation.referenced_from().iter().map(|x| x + 1).collect::<Vec<_>>(),
                    "q": q_json(&i.quantity)})
         })
